@@ -15,4 +15,6 @@ def run(ctx):
     lib_codec.dtype_table(ctx, py)
     lib_codec.schema_gates(ctx, py)
     lib_py.validate_before_store(ctx, py)
+    lib_codec.codec_defaults(ctx, py)
+    lib_py.table_name_agreement(ctx, py)
     lib_py.unused_params(ctx, py, mods=("metadata",))
